@@ -65,6 +65,17 @@ def suite(wt):
   except Exception as e:  # pylint: disable=broad-except
     failed.append(f'junit parse error {e}')
   new_fail = [f for f in failed if f not in KNOWN_FAIL and 'regrid_test' not in f]
+  dist = [f for f in new_fail if 'test_distributed_simulation_consistency' in f]
+  if dist:
+    # that test only gets its 8 CPU devices when jax_numpy_utils_test is imported in the same
+    # process (the baseline runs serially); under xdist it depends on the distribution. Re-run the
+    # two files together in one process.
+    q = sh([PY, '-m', 'pytest', '-q', '-p', 'no:cacheprovider', '--timeout=3000',
+            'dinosaur/jax_numpy_utils_test.py', 'dinosaur/primitive_equations_integration_test.py'],
+           cwd=wt, env=env, timeout=3600)
+    if q.returncode == 0:
+      new_fail = [f for f in new_fail if f not in dist]
+      passed += len(dist)
   if passed < 395:
     new_fail.append(f'only {passed} tests passed (< 395 baseline)')
   return {'summary': tail, 'passed': passed, 'unexpected_failures': new_fail}
